@@ -88,7 +88,7 @@ package rsm
 // gapplied: the series ids of this session that have been applied to the user state machine
 //@ ghost field Session.gapplied set
 // gsess: the abstract content of the LRU table (client id -> session object, nil = absent)
-//@ ghost field lrusession.gsess ptrmap:Session
+//@ ghost field cache.OrderedCache.gsess ptrmap:Session
 // number of Update calls made on the user state machine, and the index of the last one
 //@ ghost var gUpdates int
 //@ ghost var gLastIndex int
@@ -125,42 +125,42 @@ package rsm
 
 //@ func (rec *lrusession) getSession [C05]
 //@ trusted github.com/lni/goutils/cache.OrderedCache (LRU) is external; the table is modelled by the ghost map gsess
-//@ ensures result1 == (rec.gsess[key] != nil)
-//@ ensures result1 ==> result0 == rec.gsess[key] && result0.ClientID == key
+//@ ensures result1 == (rec.sessions.gsess[key] != nil)
+//@ ensures result1 ==> result0 == rec.sessions.gsess[key] && result0.ClientID == key
 //@ ensures !result1 ==> result0 == nil
 
 //@ func (rec *lrusession) addSession [C05]
 //@ trusted github.com/lni/goutils/cache.OrderedCache (LRU) is external; may evict other sessions
-//@ modifies rec.gsess
-//@ ensures rec.gsess[key] != nil && fresh(rec.gsess[key]) && rec.gsess[key].ClientID == s.ClientID && rec.gsess[key].History == s.History && rec.gsess[key].RespondedUpTo == s.RespondedUpTo
-//@ ensures forall k uint64 :: !rec.gsess[key].gapplied[k]
-//@ ensures forall k uint64 :: k != key ==> rec.gsess[k] == old(rec.gsess[k]) || rec.gsess[k] == nil
+//@ modifies rec.sessions.gsess
+//@ ensures rec.sessions.gsess[key] != nil && fresh(rec.sessions.gsess[key]) && rec.sessions.gsess[key].ClientID == s.ClientID && rec.sessions.gsess[key].History == s.History && rec.sessions.gsess[key].RespondedUpTo == s.RespondedUpTo
+//@ ensures forall k uint64 :: !rec.sessions.gsess[key].gapplied[k]
+//@ ensures forall k uint64 :: k != key ==> rec.sessions.gsess[k] == old(rec.sessions.gsess[k]) || rec.sessions.gsess[k] == nil
 
 //@ func (rec *lrusession) delSession [C05]
 //@ trusted github.com/lni/goutils/cache.OrderedCache (LRU) is external
-//@ modifies rec.gsess
-//@ ensures rec.gsess[key] == nil
-//@ ensures forall k uint64 :: k != key ==> rec.gsess[k] == old(rec.gsess[k])
+//@ modifies rec.sessions.gsess
+//@ ensures rec.sessions.gsess[key] == nil
+//@ ensures forall k uint64 :: k != key ==> rec.sessions.gsess[k] == old(rec.sessions.gsess[k])
 
 //@ func (ds *SessionManager) RegisterClientID [C05]
 //@ requires ds.lru != nil
-//@ modifies ds.lru.gsess
-//@ ensures old(ds.lru.gsess[clientID] != nil) ==> result.Value == 0 && ds.lru.gsess[clientID] == old(ds.lru.gsess[clientID])
-//@ ensures old(ds.lru.gsess[clientID] != nil) ==> (forall k uint64 :: ds.lru.gsess[k] == old(ds.lru.gsess[k]))
-//@ ensures !old(ds.lru.gsess[clientID] != nil) ==> result.Value == clientID && ds.lru.gsess[clientID] != nil && fresh(ds.lru.gsess[clientID]) &&
-//@    ds.lru.gsess[clientID].J() && ds.lru.gsess[clientID].RespondedUpTo == 0 && len(ds.lru.gsess[clientID].History) == 0 &&
-//@    (forall k uint64 :: !ds.lru.gsess[clientID].gapplied[k])
+//@ modifies ds.lru.sessions.gsess
+//@ ensures old(ds.lru.sessions.gsess[clientID] != nil) ==> result.Value == 0 && ds.lru.sessions.gsess[clientID] == old(ds.lru.sessions.gsess[clientID])
+//@ ensures old(ds.lru.sessions.gsess[clientID] != nil) ==> (forall k uint64 :: ds.lru.sessions.gsess[k] == old(ds.lru.sessions.gsess[k]))
+//@ ensures !old(ds.lru.sessions.gsess[clientID] != nil) ==> result.Value == clientID && ds.lru.sessions.gsess[clientID] != nil && fresh(ds.lru.sessions.gsess[clientID]) &&
+//@    ds.lru.sessions.gsess[clientID].J() && ds.lru.sessions.gsess[clientID].RespondedUpTo == 0 && len(ds.lru.sessions.gsess[clientID].History) == 0 &&
+//@    (forall k uint64 :: !ds.lru.sessions.gsess[clientID].gapplied[k])
 
 //@ func (ds *SessionManager) UnregisterClientID [C05]
 //@ requires ds.lru != nil
-//@ modifies ds.lru.gsess
-//@ ensures old(ds.lru.gsess[clientID] != nil) ==> result.Value == clientID && ds.lru.gsess[clientID] == nil
-//@ ensures !old(ds.lru.gsess[clientID] != nil) ==> result.Value == 0
-//@ ensures forall k uint64 :: k != clientID ==> ds.lru.gsess[k] == old(ds.lru.gsess[k])
+//@ modifies ds.lru.sessions.gsess
+//@ ensures old(ds.lru.sessions.gsess[clientID] != nil) ==> result.Value == clientID && ds.lru.sessions.gsess[clientID] == nil
+//@ ensures !old(ds.lru.sessions.gsess[clientID] != nil) ==> result.Value == 0
+//@ ensures forall k uint64 :: k != clientID ==> ds.lru.sessions.gsess[k] == old(ds.lru.sessions.gsess[k])
 
 //@ func (ds *SessionManager) ClientRegistered [C05]
 //@ requires ds.lru != nil
-//@ ensures result1 == (ds.lru.gsess[clientID] != nil) && result0 == ds.lru.gsess[clientID]
+//@ ensures result1 == (ds.lru.sessions.gsess[clientID] != nil) && result0 == ds.lru.sessions.gsess[clientID]
 
 //@ func (ds *SessionManager) UpdateRespondedTo [C05]
 //@ requires session.J()
@@ -200,7 +200,7 @@ package rsm
 //@ modifies s.index, s.term
 //@ ensures index == old(s.index) + 1 && term >= old(s.term) && s.index == index && s.term == term
 
-//@ pred (s *StateMachine) sessOf(id uint64) := s.sessions.lru.gsess[id]
+//@ pred (s *StateMachine) sessOf(id uint64) := s.sessions.lru.sessions.gsess[id]
 
 //@ func (s *StateMachine) update [C05 C11 C02]
 //@ requires s.sessions != nil && s.sessions.lru != nil && s.sm != nil && s.index < MaxUint64
@@ -234,7 +234,7 @@ package rsm
 
 //@ func (s *StateMachine) registerSession [C05 C11]
 //@ requires s.sessions != nil && s.sessions.lru != nil && s.index < MaxUint64
-//@ modifies held(s.mu), s.index, s.term, s.sessions.lru.gsess
+//@ modifies held(s.mu), s.index, s.term, s.sessions.lru.sessions.gsess
 //@ ensures s.index == e.Index && old(s.index) + 1 == e.Index && gUpdates == old(gUpdates)
 //@ ensures old(s.sessOf(e.ClientID) != nil) ==> result.Value == 0 && (forall k uint64 :: s.sessOf(k) == old(s.sessOf(k)))
 //@ ensures !old(s.sessOf(e.ClientID) != nil) ==> result.Value == e.ClientID && s.sessOf(e.ClientID) != nil && s.sessOf(e.ClientID).J() &&
@@ -242,7 +242,7 @@ package rsm
 
 //@ func (s *StateMachine) unregisterSession [C05 C11]
 //@ requires s.sessions != nil && s.sessions.lru != nil && s.index < MaxUint64
-//@ modifies held(s.mu), s.index, s.term, s.sessions.lru.gsess
+//@ modifies held(s.mu), s.index, s.term, s.sessions.lru.sessions.gsess
 //@ ensures s.index == e.Index && old(s.index) + 1 == e.Index && gUpdates == old(gUpdates)
 //@ ensures old(s.sessOf(e.ClientID) != nil) ==> result.Value == e.ClientID && s.sessOf(e.ClientID) == nil
 //@ ensures !old(s.sessOf(e.ClientID) != nil) ==> result.Value == 0
@@ -489,3 +489,27 @@ package rsm
 //@ nobounds
 //@ modifies gWriterCT
 //@ ensures err == nil ==> gWriterCT == pb.NoCompression
+
+// ---------------------------------------------------------------- restoring the session table from a snapshot (C05)
+// From the property (and C08): after a snapshot is installed the session table is exactly the
+// snapshot's table; no session that existed before the restore survives it (a surviving stale
+// session would let a late duplicate of an unregistered client be treated as registered).
+//@ func newLRUSession [C05]
+//@ trusted allocates an empty LRU table
+//@ ensures result != nil && result.sessions != nil && fresh(result.sessions) && (forall k uint64 :: result.sessions.gsess[k] == nil)
+//@ func (rec *lrusession) addSessionLocked [C05]
+//@ trusted github.com/lni/goutils/cache.OrderedCache (LRU) is external; may evict other sessions
+//@ modifies rec.sessions.gsess
+//@ ensures rec.sessions.gsess[key] != nil && fresh(rec.sessions.gsess[key])
+//@ ensures forall k uint64 :: k != key ==> rec.sessions.gsess[k] == old(rec.sessions.gsess[k]) || rec.sessions.gsess[k] == nil
+//@ func (s *Session) recoverFromSnapshot [C05]
+//@ trusted decodes one session (encoding/json or the v1 binary layout)
+//@ modifies *s
+//@ extern io ReadFull
+
+//@ func (rec *lrusession) load [C05 C08]
+//@ noframe
+//@ nobounds
+//@ modifies held(rec.Mutex), rec.sessions, rec.size
+//@ ensures result == nil ==> (forall k uint64 :: rec.sessions.gsess[k] != nil ==> fresh(rec.sessions.gsess[k]))
+//@ loop 2 invariant fresh(rec.sessions) && (forall k uint64 :: rec.sessions.gsess[k] != nil ==> fresh(rec.sessions.gsess[k]))
